@@ -178,6 +178,9 @@ def applyOp (s : St) (op : String) (implVerdict : String) : StepOut :=
             else (trueLen, true)
           fin (handleMetadataData m k i len good)
         | "metareject" => fin (handleMetadataReject m k)
+        | "pex" =>
+          let has (v : String) : Bool := (v.splitOn "@").length ≥ 2
+          fin (handlePex m (has (kvStr toks "added")) (has (kvStr toks "dropped")))
         | "metareq" =>
           -- a peer asks us for a metadata block
           match s.findPeer k with
@@ -193,6 +196,7 @@ def applyOp (s : St) (op : String) (implVerdict : String) : StepOut :=
         else if s.writing.isSome then fin m "deferred"   -- parked until the write completes (see `deferredQ`)
         else fin (handlePieceMessage m k i b l good)
       | some msg => fin (handlePeerMessage m k msg)
+  | "dhtpeers" => fin (handleDhtPeers m ((kvStr toks "addrs").splitOn "@" |>.length |> (· ≥ 2)))
   | "disconnect" =>
     let k := kvNat toks "p"
     match s.findPeer k with
@@ -232,6 +236,7 @@ def renderObs (s : St) (verdict : String) (outs : List Out) (impl : List (String
       | none => "0"
     | "dl" => dlTok
     | "idl" => joinOrDash (s.idls.map fun d => toString d.k)
+    | "dials" => toString s.dials
     | "peers" => joinOrDash (s.peers.map fun p => toString p.k)
     | "npeers" => toString s.peers.length
     | "banned" => joinOrDash (sortStrings s.banned)
